@@ -367,6 +367,9 @@ def slim(ev):
         r = {k: v for k, v in ev.items() if k not in ('pre', 'post', 'post2', 'saved', 'ext', 'fext')}
         r.update(pre=b(ev['pre']), post=b(ev['post']), post2=b(ev['post2']))
         return r
+    if ev.get('ev') == 'pair' and ev.get('kind') == 'loop':
+        return dict(ev='pair', kind='loop', sid=ev['sid'], store=ev['store'], inputs=ev['inputs'], lines=ev['nlines'], lastnl=ev['lastnl'], persist=ev['persist'],
+                    a=ev['a'][:8], w=ev['w'][:8], lerr=ev['lerr'], lpanic=ev['lpanic'], rest=ev['rest'][:8])
     if ev.get('ev') == 'pair':
         return dict(ev='pair', kind=ev['kind'], sid=ev['sid'], store=ev['store'], inputs=ev['inputs'], extra=ev['extra'][:12], a=ev['a'][:8], b=ev['b'][:8])
     return ev
